@@ -13,7 +13,7 @@ import (
 
 func init() {
 	zv.Register(&zv.Prop{ID: "C18", Topic: "c18", Gen: gen, Exec: Exec,
-		Rule: "random Go struct types built with reflect.StructOf (nested structs/slices, optional/default/explicit/implicit/application/private/set/omitempty/string-kind tags, RawValue, *big.Int, OID, BitString, Flag, Enumerated, SET-named slices) with random values: Marshal compared with the model (bytes), strict Unmarshal of valid and mutated encodings compared with the model (value, rest); round trip + idempotence oracle on every in-domain value; non-trivial = distinct case lines"})
+		Rule: "random Go struct types built with reflect.StructOf (nested structs/slices, optional/default/explicit/implicit/application/private/set/omitempty/string-kind tags, RawValue, *big.Int, OID, BitString, Flag, Enumerated, SET-named slices) with random values: Marshal compared with the model (bytes), strict Unmarshal of valid and mutated encodings compared with the model (value, rest); round trip + idempotence oracle on every in-domain value; time.Time stream (T3 only, not sent to the model): bare / struct / slice time fields with plain, utc, generalized, explicit/implicit/application/private tags (incl. tag numbers 23/24), optional; values on the years -1/0/1, 1949/1950/1951, 1999/2000, 2049/2050/2051, 2068/2069, 9999/10000 and the seconds around each window edge, zones of whole minutes / with seconds, fractional seconds; oracle = year outside 0..9999 rejected, reference encoder (expected UTCTime vs GeneralizedTime TLV), round trip to the second incl. zone offset, byte-identical re-marshal; hand-made and mutated UTCTime/GeneralizedTime contents decoded and compared with the harness reference parser (op tu); the generalized+IMPLICIT class (D26) is a sub-stream of its own (op tm26, emitted last); non-trivial = distinct case lines"})
 }
 
 // UnmarshalDump runs the real Unmarshal and renders (value, len(rest)) canonically.
@@ -76,6 +76,69 @@ func kindTags(s *Sch, tag string, tags map[string]bool) {
 	}
 }
 
+// execMarshal: Marshal on the real code + the T3 sentence (round trip, all bytes consumed, equal value, byte-identical
+// re-marshal) for values of the documented domain. withTime adds the oracles of the time.Time stream.
+func execMarshal(s *Sch, t reflect.Type, tag, arg string, tagset map[string]bool, withTime bool) (out zv.Out) {
+	v := BuildStr(s, t, arg)
+	der, err := asn1.MarshalWithParams(v.Interface(), tag)
+	why := InDomain(s, tag, v, true)
+	if withTime {
+		timeTags(s, tag, v, tagset)
+	}
+	if err != nil {
+		out.Go = "err"
+		tagset["marshal-err"] = true
+		if withTime && timeYearUnrepresentable(s, tag, v) {
+			tagset["time:year-rejected"] = true
+		}
+		if why == "" {
+			tagset["indomain-marshal-err"] = true
+			out.Viol = "Marshal rejects a value of the documented domain: " + err.Error()
+		}
+		return out
+	}
+	out.Go = "ok " + hx(der)
+	if withTime && timeYearUnrepresentable(s, tag, v) {
+		out.Viol = "Marshal accepts a time.Time whose year is outside 0..9999 (not representable as GeneralizedTime): " + hx(der)
+		return out
+	}
+	if why != "" {
+		tagset["outside-domain"] = true
+		return out
+	}
+	tagset["indomain"] = true
+	if withTime {
+		// independent reference encoder: every encoded time leaf must appear as the expected UTCTime / GeneralizedTime TLV
+		if msg := timeRefCheck(s, tag, v, der); msg != "" {
+			out.Viol = msg
+			return out
+		}
+	}
+	// T3: the sentence of the property on the real code
+	pv := reflect.New(t)
+	rest, err := asn1.UnmarshalWithParams(der, pv.Interface(), tag)
+	switch {
+	case err != nil:
+		out.Viol = "strict Unmarshal rejects Marshal's output " + hx(der) + ": " + err.Error()
+		if withTime && HasGeneralizedImplicit(s, tag) {
+			tagset["time:D26-generalized-implicit-rejected"] = true
+			out.Viol += " [D26 generalized+implicit: a time.Time field with `generalized` and an IMPLICIT tag is marshalled as GeneralizedTime but decoded as UTCTime]"
+		}
+	case len(rest) != 0:
+		out.Viol = fmt.Sprintf("Unmarshal of Marshal's output %s leaves %d bytes", hx(der), len(rest))
+	case !Equal(s, tag, v, pv.Elem()):
+		out.Viol = "round trip changed the value: " + hx(der) + " decodes to " + DumpStr(s, pv.Elem())
+	default:
+		der2, err := asn1.MarshalWithParams(pv.Elem().Interface(), tag)
+		if err != nil {
+			out.Viol = "re-marshal of the decoded value fails: " + err.Error()
+		} else if !bytes.Equal(der, der2) {
+			out.Viol = "re-marshal of the decoded value differs: " + hx(der) + " vs " + hx(der2)
+		}
+	}
+	return out
+}
+
 func Exec(line string) zv.Out {
 	op, s, t, tag, arg := parseLine(line)
 	tagset := map[string]bool{"op:" + op: true}
@@ -83,42 +146,12 @@ func Exec(line string) zv.Out {
 	var out zv.Out
 	switch op {
 	case "m":
-		v := BuildStr(s, t, arg)
-		der, err := asn1.MarshalWithParams(v.Interface(), tag)
-		why := InDomain(s, tag, v, true)
-		if err != nil {
-			out.Go = "err"
-			tagset["marshal-err"] = true
-			if why == "" {
-				tagset["indomain-marshal-err"] = true
-				out.Viol = "Marshal rejects a value of the documented domain: " + err.Error()
-			}
-			break
-		}
-		out.Go = "ok " + hx(der)
-		if why != "" {
-			tagset["outside-domain"] = true
-			break
-		}
-		tagset["indomain"] = true
-		// T3: the sentence of the property on the real code
-		pv := reflect.New(t)
-		rest, err := asn1.UnmarshalWithParams(der, pv.Interface(), tag)
-		switch {
-		case err != nil:
-			out.Viol = "strict Unmarshal rejects Marshal's output " + hx(der) + ": " + err.Error()
-		case len(rest) != 0:
-			out.Viol = fmt.Sprintf("Unmarshal of Marshal's output %s leaves %d bytes", hx(der), len(rest))
-		case !Equal(s, tag, v, pv.Elem()):
-			out.Viol = "round trip changed the value: " + hx(der) + " decodes to " + DumpStr(s, pv.Elem())
-		default:
-			der2, err := asn1.MarshalWithParams(pv.Elem().Interface(), tag)
-			if err != nil {
-				out.Viol = "re-marshal of the decoded value fails: " + err.Error()
-			} else if !bytes.Equal(der, der2) {
-				out.Viol = "re-marshal of the decoded value differs: " + hx(der) + " vs " + hx(der2)
-			}
-		}
+		out = execMarshal(s, t, tag, arg, tagset, false)
+	case "tm", "tm26": // time.Time stream: T3 only (time is not in the Lean model)
+		out = execMarshal(s, t, tag, arg, tagset, true)
+		out.Go = ""
+	case "tu":
+		out = execTimeDecode(tag, unhx(arg), tagset)
 	case "u":
 		out.Go = UnmarshalDump(s, t, tag, unhx(arg))
 		if out.Go == "err" {
@@ -277,4 +310,6 @@ func gen(g *zv.Gen) {
 			}
 		}()
 	}
+	// time.Time (T3 only); its last lines are the D26 class
+	genTime(g)
 }
